@@ -53,6 +53,9 @@ def check(ctx):
         ctx.analysed(f)
         for fld, idx_want in want[nm].items():
             ws = [n for g, n, k in p.field_accesses(POS, fld) if g is f and k in ('write', 'rmw')]
+            if not ws and idx_want is None:
+                # the list may be written through a pointer into it; what is written is decided by list-move/list-remove
+                ws = [n for g, n, k in p.field_accesses(POS, fld) if g is f and k == 'addr']
             ok = bool(ws)
             why = ''
             if ok and idx_want is not None:
@@ -328,6 +331,28 @@ def _list_loop(f, find, repl):
     from rules.norm import Norm
     nm = Norm(f, keep=('piece',))
     loops = [n for n in f.all_nodes() if n['k'] == 'ForStmt' and any(short(x.get('ref', {}).get('n', '')) == '_piece_position' for x in walk(n['ch'][4]))]
+    finds = [n for n in f.all_nodes() if (n.get('callee') or {}).get('n', '').startswith('std::find') and len(kids(n)) == 4]
+    if not loops and finds:
+        # spelling B: e = std::find(list, list + count, find); if (e != list + count) *e = repl;
+        LIST, END = '_piece_position[piece]', '(_piece_count[piece]+_piece_position[piece])'
+        ptr_repl = {'_piece_position[piece][(_piece_count[piece]-1)]': '*((%s-1))' % END}.get(repl, repl)
+        for fc in finds:
+            if [nm.s(a) for a in kids(fc)[1:]] != [LIST, END, find]:
+                continue
+            par = f.parent(fc)
+            while par is not None and par['k'] != 'VarDecl':
+                par = f.parent(par) if par['k'] in ('ImplicitCastExpr', 'ExprWithCleanups', 'ParenExpr') else None
+            if par is None:
+                continue
+            e = par['name']
+            nme = Norm(f, keep=('piece', e))
+            for n in f.all_nodes():
+                if n['k'] == 'IfStmt' and len(kids(n)) == 2 and nme.conj(kids(n)[0]) == frozenset({('ne',) + tuple(sorted([END, e]))}):
+                    for x in walk(kids(n)[1]):
+                        if x['k'] == 'BinaryOperator' and x.get('op') == '=' and nme.s(kids(x)[0]) == '*(%s)' % e and \
+                                nme.s(kids(x)[1]) in (repl, ptr_repl):
+                            return True
+        return False
     if not loops:
         raise AnalysisBroken('%s: the piece list is maintained in a form the rule does not know (no index loop over _piece_position)' % f.name)
     for lp in loops:
